@@ -27,6 +27,7 @@ type nativeCase struct {
 	Chooses []int             `json:"chooses"`
 	Params  map[string]int    `json:"params"`
 	Kind    string            `json:"kind"` // witness | violation | known
+	Sched   []int             `json:"sched,omitempty"`
 }
 
 type nativeResult struct {
@@ -92,6 +93,7 @@ type zzCase struct {
 	Inputs  map[string]uint64 ` + "`json:\"inputs\"`" + `
 	Chooses []int             ` + "`json:\"chooses\"`" + `
 	Params  map[string]int    ` + "`json:\"params\"`" + `
+	Sched   []int             ` + "`json:\"sched\"`" + `
 }
 
 type zzObs struct {
@@ -112,13 +114,14 @@ var (
 func zzReset(c *zzCase) {
 	var seq []int64
 	for k := 0; ; k++ {
-		v, ok := c.Inputs[fmt.Sprintf("now#%d", k)]
+		v, ok := c.Inputs[fmt.Sprintf("clk#%d", k)]
 		if !ok {
 			break
 		}
 		seq = append(seq, int64(v))
 	}
 	zzclock.ZZClockSet(seq)
+	zzclock.ZZSchedSet(c.Sched)
 	zzCur = c
 	zzSeq = map[string]int{}
 	zzChooseI = 0
@@ -187,8 +190,9 @@ func symObserve(name string, v interface{}) {
 func symLoopBound(n int)     {}
 func symSetNow(t time.Time)  { zzclock.ZZClockPin(t) }
 func symUnpinNow()           { zzclock.ZZClockUnpin() }
-func symYield()              { runtime.Gosched() }
+func symYield()              { zzclock.ZZSchedPoint(); runtime.Gosched() }
 func symWaitUntil(f func() bool) {
+	zzclock.ZZSchedPoint()
 	for !f() {
 		runtime.Gosched()
 	}
@@ -244,6 +248,8 @@ import (
 	"os"
 	"testing"
 	"time"
+
+	zzclock "github.com/plgd-dev/go-coap/v3/pkg/errors"
 )
 
 var zzHarnesses = map[string]func(){
@@ -301,6 +307,10 @@ func TestZZReplay(t *testing.T) {
 			}
 			f()
 			res.Outcome = "ok"
+			if zzclock.ZZSchedDiverged() {
+				res.Msg = "schedule-diverged"
+			}
+			zzclock.ZZSchedSet(nil)
 		}()
 		timedOut := false
 		select {
@@ -328,6 +338,7 @@ func TestZZReplay(t *testing.T) {
 const clockFile = `package errors
 
 import (
+	"runtime"
 	"sync"
 	"time"
 )
@@ -357,6 +368,125 @@ func ZZClockUnpin() {
 	zzClockMu.Lock()
 	zzClockPin = nil
 	zzClockMu.Unlock()
+}
+
+// ---- schedule replay: only the goroutine whose turn it is according to the recorded trace runs ----
+
+var (
+	zzSchedMu      sync.Mutex
+	zzSchedCond    = sync.NewCond(&zzSchedMu)
+	zzSchedTrace   []int
+	zzSchedPos     int
+	zzSchedRunning = -1
+	zzSchedActive  bool
+	zzSchedNext    int
+	zzSchedIDs     = map[uint64]int{}
+	zzSchedDiverge bool
+)
+
+func zzGoID() uint64 {
+	var buf [64]byte
+	n := runtime.Stack(buf[:], false)
+	var id uint64
+	for _, c := range buf[len("goroutine "):n] {
+		if c < '0' || c > '9' {
+			break
+		}
+		id = id*10 + uint64(c-'0')
+	}
+	return id
+}
+
+// ZZSchedSet starts (or, with an empty trace, stops) schedule replay; the caller becomes thread 0.
+func ZZSchedSet(trace []int) {
+	zzSchedMu.Lock()
+	zzSchedTrace, zzSchedPos, zzSchedDiverge = trace, 0, false
+	zzSchedActive = len(trace) > 0
+	zzSchedIDs = map[uint64]int{zzGoID(): 0}
+	zzSchedNext = 1
+	zzSchedRunning = 0
+	zzSchedCond.Broadcast()
+	zzSchedMu.Unlock()
+}
+
+func ZZSchedDiverged() bool {
+	zzSchedMu.Lock()
+	defer zzSchedMu.Unlock()
+	return zzSchedDiverge
+}
+
+func ZZSchedPoint() {
+	zzSchedMu.Lock()
+	defer zzSchedMu.Unlock()
+	if !zzSchedActive {
+		return
+	}
+	me, ok := zzSchedIDs[zzGoID()]
+	if !ok {
+		return
+	}
+	if zzSchedRunning == me {
+		zzSchedRunning = -1
+		zzSchedCond.Broadcast()
+	}
+	deadline := time.Now().Add(5 * time.Second)
+	for zzSchedActive {
+		if zzSchedPos >= len(zzSchedTrace) {
+			zzSchedActive = false // trace exhausted: the recorded path ended here, everything else runs freely
+			zzSchedCond.Broadcast()
+			return
+		}
+		if zzSchedTrace[zzSchedPos] == me && zzSchedRunning == -1 {
+			zzSchedRunning = me
+			zzSchedPos++
+			return
+		}
+		if time.Now().After(deadline) {
+			zzSchedActive, zzSchedDiverge = false, true
+			zzSchedCond.Broadcast()
+			return
+		}
+		t := time.AfterFunc(200*time.Millisecond, func() { zzSchedMu.Lock(); zzSchedCond.Broadcast(); zzSchedMu.Unlock() })
+		zzSchedCond.Wait()
+		t.Stop()
+	}
+}
+
+// ZZSchedPV is a scheduling point that passes its argument through (used to wrap receivers and channels).
+func ZZSchedPV[T any](v T) T {
+	ZZSchedPoint()
+	return v
+}
+
+// ZZSchedGo replaces a go statement: thread ids are assigned in creation order like in the engine.
+func ZZSchedGo(f func()) {
+	zzSchedMu.Lock()
+	active := zzSchedActive
+	id := zzSchedNext
+	zzSchedNext++
+	zzSchedMu.Unlock()
+	if !active {
+		go f()
+		return
+	}
+	started := make(chan struct{})
+	go func() {
+		zzSchedMu.Lock()
+		zzSchedIDs[zzGoID()] = id
+		zzSchedMu.Unlock()
+		close(started)
+		ZZSchedPoint() // thread start
+		defer func() {
+			zzSchedMu.Lock()
+			if zzSchedRunning == id {
+				zzSchedRunning = -1
+			}
+			zzSchedCond.Broadcast()
+			zzSchedMu.Unlock()
+		}()
+		f()
+	}()
+	<-started
 }
 
 func ZZClockNow() time.Time {
@@ -495,7 +625,7 @@ func harnessFuncs(file string) ([]string, error) {
 }
 
 // runNative executes the cases of one package natively and returns the results by case id.
-func runNative(repo, verif, pkgDir, pkgName string, harnessFiles []string, clockDirs []string, cases []nativeCase, keepDir string) (map[int]nativeResult, string, error) {
+func runNative(repo, verif, pkgDir, pkgName string, harnessFiles []string, rewrite func(scratch string, replace map[string]string) error, cases []nativeCase, keepDir string) (map[int]nativeResult, string, error) {
 	scratch, err := os.MkdirTemp("", "gosym-native-")
 	if err != nil {
 		return nil, "", err
@@ -529,8 +659,10 @@ func runNative(repo, verif, pkgDir, pkgName string, harnessFiles []string, clock
 		return nil, "", err
 	}
 	replace[filepath.Join(repo, "pkg/errors", "zz_verif_clock.go")] = clkPath
-	if err := clockOverlay(repo, clockDirs, scratch, replace); err != nil {
-		return nil, "", err
+	if rewrite != nil {
+		if err := rewrite(scratch, replace); err != nil {
+			return nil, "", err
+		}
 	}
 	replace[filepath.Join(repo, pkgDir, "zz_verif_sym.go")] = symPath
 	replace[filepath.Join(repo, pkgDir, "zz_verif_replay_test.go")] = drvPath
@@ -616,7 +748,7 @@ func runNative(repo, verif, pkgDir, pkgName string, harnessFiles []string, clock
 		}
 		ov2, _ := json.MarshalIndent(map[string]interface{}{"Replace": rep2}, "", " ")
 		os.WriteFile(filepath.Join(keepDir, "overlay.json"), ov2, 0o644)
-		script := fmt.Sprintf("#!/bin/sh\n# replays the recorded counterexample(s) against /repo's working tree\ncd %s && GOFLAGS=-mod=mod GOPROXY=off ZZ_CASES=%s ZZ_OUT=/dev/stdout ZZ_START=0 go test -vet=off -count=1 -overlay %s -run '^TestZZReplay$' ./%s\n", repo, filepath.Join(keepDir, "cases.json"), filepath.Join(keepDir, "overlay.json"), pkgDir)
+		script := fmt.Sprintf("#!/bin/sh\n# replays the recorded counterexample against /repo's working tree; prints the native result (failed = violated assertion labels)\nrm -f %s\ncd %s && GOFLAGS=-mod=mod GOPROXY=off ZZ_CASES=%s ZZ_OUT=%s ZZ_START=0 go test -vet=off -count=1 -overlay %s -run '^TestZZReplay$' ./%s\ncat %s\n", filepath.Join(keepDir, "replay-out.jsonl"), repo, filepath.Join(keepDir, "cases.json"), filepath.Join(keepDir, "replay-out.jsonl"), filepath.Join(keepDir, "overlay.json"), pkgDir, filepath.Join(keepDir, "replay-out.jsonl"))
 		os.WriteFile(filepath.Join(keepDir, "replay.sh"), []byte(script), 0o755)
 	}
 	return results, log.String(), nil
